@@ -74,6 +74,46 @@ def rule_ctor(E, R):
                 # the closure answers "remove" exactly when candidate.start() <= kept.end()
                 f = S.returns_true(clo["body"], S.root)
                 cm = [(op, l, r, fr) for op, l, r, fr, c in sem.weak_cmps(((f, True),)) if c] if f is not None else []
+                if f is not None and not cm:
+                    # the verdict spread over several arms (`(true, true) => true, (true, false) => true, (false, _) => false`):
+                    # it is the comparison the formula is equivalent to
+                    import itertools
+                    allc = [(op, l, r, fr) for op, l, r, fr, c in sem.weak_cmps(((f, True),))]
+                    reps_ = []
+                    for x_ in allc:
+                        if not any(sem._struct_eq(x_[1], y_[1]) and sem._struct_eq(x_[2], y_[2]) and x_[0] in (y_[0], sem.NEG_OP.get(y_[0])) for y_ in reps_):
+                            reps_.append(x_)
+
+                    def ev_(g, env):
+                        if g[0] == "true":
+                            return True
+                        if g[0] == "false":
+                            return False
+                        if g[0] == "not":
+                            return not ev_(g[1], env)
+                        if g[0] in ("and", "or"):
+                            vs_ = [ev_(y_, env) for y_ in g[1]]
+                            return all(vs_) if g[0] == "and" else any(vs_)
+                        a_ = g[1]
+                        if a_.kind != "cmp":
+                            return env.get(id(a_), False)
+                        for i_, y_ in enumerate(reps_):
+                            if sem._struct_eq(a_.l.node, y_[1]) and sem._struct_eq(a_.r.node, y_[2]):
+                                if a_.op == y_[0]:
+                                    return env[i_]
+                                if sem.NEG_OP.get(a_.op) == y_[0]:
+                                    return not env[i_]
+                            if sem._struct_eq(a_.l.node, y_[2]) and sem._struct_eq(a_.r.node, y_[1]):
+                                if sem.SWAP_OP.get(a_.op) == y_[0]:
+                                    return env[i_]
+                                if sem.NEG_OP.get(sem.SWAP_OP.get(a_.op)) == y_[0]:
+                                    return not env[i_]
+                        return False
+                    if 0 < len(reps_) <= 4:
+                        for i_, y_ in enumerate(reps_):
+                            same_ = all(ev_(f, dict(enumerate(bits_))) == bits_[i_] for bits_ in itertools.product((True, False), repeat=len(reps_)))
+                            if same_:
+                                cm = [y_]
                 ok = len(cm) == 1 and cm[0][0] in ("Le", "Lt") and acc(cm[0][1], cm[0][3], "start", removed) and acc(cm[0][2], cm[0][3], "end", kept)
                 assigns = [x for x in S.sites() if in_cb(x) and x.node.get("k") == "Assign"]
                 ok = ok and len(assigns) >= 1
